@@ -72,7 +72,9 @@ fn c14_all() {
     let mut out: Vec<String> = Vec::new();
     let mut evals = 0usize;
     for (head, sibs, term, close) in bodies.iter() {
-        for sep in [" ", "\n  "].iter() {
+        let full = std::env::var("ORACLE_FULL").map(|v| v == "1").unwrap_or(false);
+        let seps: Vec<&str> = if full { vec![" ", "\n  ", "\r\n", " /* c */ ", " // l\n", "\t"] } else { vec![" ", "\n  "] };
+        for sep in seps.iter() {
             let clean = format!("{}{}{}{}{}", head, sep, sibs.join(sep), sep, close);
             let (clean_shape, clean_errs) = parse(&clean);
             // validation Errors of the clean body (none expected in this family) are not syntax Errors
